@@ -76,6 +76,10 @@ struct Cmp : dv::Typed<int, Cmp> {
 		s += bit(a == Bd()); s += bit(a != Bd());
 		s += bit(a == Bc()); s += bit(a != Bc());
 		s += bit(a == Bc); s += bit(a != Bc);
+		// a convertible element type whose values are NOT representable in the left-hand type: never equal (unless empty)
+		multi::array<double, D> Bh(b);
+		for(auto& x : Bh.elements()) { x += 0.5; }
+		s += bit(a == Bh()); s += bit(a != Bh()); s += bit(Bh() == a); s += bit(Bh() != a);
 		out = s;
 	}
 };
@@ -100,6 +104,8 @@ std::string cmp0(int* pa, int* pb) {
 	s += bit(a == Bd); s += bit(a != Bd);
 	s += bit(A == cB); s += bit(A != cB);
 	s += bit(a == Bc); s += bit(a != Bc);
+	multi::array<double, 0> Bh(static_cast<double>(*pb) + 0.5);
+	s += bit(a == Bh); s += bit(a != Bh); s += bit(Bh == a); s += bit(Bh != a);
 	return s;
 #else
 	(void)pa; (void)pb;
